@@ -189,6 +189,7 @@ func (w *World) verifyFunc(fn *ssa.Function, c *FuncContract) (res *FuncResult) 
 		vc.assume(g)
 	}
 	fr.entry = st.clone()
+	vc.replay = &ReplayInfo{fn: fn, args: args, contract: c, world: w}
 	out, vals := fr.run(st, args)
 	for _, rc := range c.Reach {
 		if rc.Clause.Label != "bound" {
